@@ -23,7 +23,8 @@ type Group struct {
 
 func WithContext(ctx context.Context) (*Group, context.Context) {
 	ctx, cancel := context.WithCancel(ctx)
-	return &Group{cancel: cancel}, ctx
+	vsched.NewCtx(ctx)
+	return &Group{cancel: func() { vsched.Cancelling(ctx); cancel() }}, ctx
 }
 
 func (g *Group) done() {
@@ -48,7 +49,7 @@ func (g *Group) Wait() error {
 func (g *Group) Go(f func() error) {
 	if g.limit > 0 {
 		if vsched.Active() {
-			vsched.Block("wait", "errgroup limiter", func() bool { return g.running < g.limit }, func() { g.running++ })
+			vsched.Block("wait", "errgroup limiter", nil, func() bool { return g.running < g.limit }, func() { g.running++ })
 		} else {
 			g.nsem <- struct{}{}
 		}
